@@ -167,6 +167,18 @@ def comment_cases():
     return cases
 
 
+def err_cases():
+    """a number literal whose conversion returns Err (hex literal above i64): the Err is a VALUE that
+    the Pratt loop keeps carrying; the result is Err wherever the literal stands"""
+    a = 'IIdent "a"'
+    return [("err", e) for e in [
+        "[IBadNum]", "[IBadNum; IOp R_add; %s]" % a, "[%s; IOp R_power; IOp R_negation; IBadNum; IOp R_factorial]" % a,
+        "[IList [LItem [%s] None; LItem [IBadNum] None; LItem [%s] None]]" % (a, a),
+        "[%s; ICall [[%s]; [IBadNum]]]" % (a, a), "[%s; IAccess [IExpr false [IBadNum]]]" % a,
+        "[ICond [%s] [IBadNum] [%s]]" % (a, a), '[IRecord [RPairI (RKId "k") [IBadNum] None]]',
+        '[ILambda [AReq "x"] [IBadNum; IOp R_multiply; %s]]' % a, "[IExpr true [IBadNum]; IOp R_coalesce; %s]" % a]]
+
+
 def check_comment_pairs(res, cases, models, impls):
     k = [i for i, (kind, _) in enumerate(cases) if kind == "comments"]
     bad = [i for i in k if impls[i] != impls[i + 1] or models[i] != models[i + 1] or not (impls[i] or "").startswith("E ")]
@@ -436,6 +448,35 @@ def small_layout_search(h, res):
                            "observed": o, "expected": "SAME", "rerun": "./check C10 --replay <this file>"})
     res.streams["SEARCH-layout-small"] = {"pairs": len(lines), "exhaustive": True, "gap_kinds": kinds,
                                           "known_bang_equals": known, "violations": viol}
+    return len(lines)
+
+
+def statement_layout_search(h, res):
+    """Implementation only, exhaustive over a small set: layout between and around statements."""
+    progs = [["x = 1", "y = x + 1"], ["output x = 1", "x * 2"], ["f = (a) => a + 1", "output f", "f(2)"],
+             ["[1, 2]", "{a: 1}"], ["a!", "b"]]
+    seps = ["\n", "\n\n", " \n", "\n\n\n", " // note\n", "\n// line\n", " // note\n\n// line\n", "\r\n"]
+    pre = ["", "\n", "// head\n", "\n\n// head\n\n"]
+    post = ["", "\n", " // tail", "\n// tail", "\n\n", " // tail\n"]
+    lines, info = [], []
+    for st in progs:
+        base = "\n".join(st)
+        vs = [a + sp.join(st) + z for sp in seps for a in ("",) for z in ("",)]
+        vs += [a + base for a in pre] + [base + z for z in post]
+        for v in vs:
+            if v != base:
+                lines.append(c.hexs(base) + "\t" + c.hexs(v))
+                info.append((base, v))
+    outs = c.harness_lines_resilient(h, "parse10eq", lines)
+    viol = 0
+    for (base, v), o in zip(info, outs):
+        if o != "SAME":
+            viol += 1
+            if viol <= 3:
+                res.violation("layout between statements changes the parsed program (%s)" % o,
+                              {"kind": "impl-law", "law": "AST(base) == AST(variant)", "base": base, "variant": v,
+                               "observed": o, "expected": "SAME", "rerun": "./check C10 --replay <this file>"})
+    res.streams["SEARCH-statement-layout"] = {"pairs": len(lines), "exhaustive": True, "violations": viol}
     return len(lines)
 
 
@@ -823,7 +864,7 @@ def main(argv):
     fc = []
     if model_ok:
         # ---- FLAT: exhaustive operator sequences, model vs implementation
-        fc = flat_cases(tier, rng) + comment_cases()
+        fc = flat_cases(tier, rng) + comment_cases() + err_cases()
         r = run_stream(h, res, "PARSE-flat", fc)
         if r:
             res.streams["PARSE-flat"]["comment_pairs"] = check_comment_pairs(res, fc, r[1], r[2])
@@ -846,6 +887,7 @@ def main(argv):
     evaluations += small_search(h, res)
     evaluations += triple_search(h, res)
     evaluations += small_layout_search(h, res)
+    evaluations += statement_layout_search(h, res)
     evaluations += search_stream(h, res, rng, meta, 2 if tier == "quick" else 4)
     evaluations += ident_stream(h, res, rng, tier, builtin_names, model_ok and ident_ok)
     evaluations += spelling_stream(h, res, rng)
